@@ -70,7 +70,7 @@ PROPERTIES = {
             "caller-supplied buffers respect the pixel type's alignment (row size kept a multiple of alignof(pixel))",
         ],
         "targets": [{"name": "c01_access_g%d" % g, "src": "c01_access.cpp", "mode": "asan", "rapidcheck": True,
-                     "flags": ["-DVL_GROUP=%d" % g, '-DVERIF_TARGET_NAME="c01_access_g%d"' % g], "subtargets": ["access"], "group": g} for g in range(4)],
+                     "flags": ["-DVL_GROUP=%d" % g, '-DVERIF_TARGET_NAME="c01_access_g%d"' % g], "subtargets": ["access"], "group": g, "match": ("cfg", 4, g)} for g in range(4)],
     },
     "C02": {
         "level": "exploration",
@@ -79,7 +79,7 @@ PROPERTIES = {
             "color_converted tails are generated only for colour spaces with a default converter; nth/kth_channel tails only for homogeneous pixels",
         ],
         "targets": [{"name": "c02_views_g%d" % g, "src": "c02_views.cpp", "mode": "asan", "rapidcheck": True,
-                     "flags": ["-DVL_GROUP=%d" % g, '-DVERIF_TARGET_NAME="c02_views_g%d"' % g], "subtargets": ["views"], "group": g} for g in range(4)],
+                     "flags": ["-DVL_GROUP=%d" % g, '-DVERIF_TARGET_NAME="c02_views_g%d"' % g], "subtargets": ["views"], "group": g, "match": ("cfg", 4, g)} for g in range(4)],
     },
     "C03": {
         "level": "exploration",
@@ -89,7 +89,7 @@ PROPERTIES = {
             "dereference adaptors (colour-converted views) return values: 'same pixel' is decided by value there, by address / bit position elsewhere",
         ],
         "targets": [{"name": "c03_nav_g%d" % g, "src": "c03_navigation.cpp", "mode": "asan", "rapidcheck": True,
-                     "flags": ["-DVL_GROUP=%d" % g, '-DVERIF_TARGET_NAME="c03_nav_g%d"' % g], "subtargets": ["nav"], "group": g} for g in range(4)],
+                     "flags": ["-DVL_GROUP=%d" % g, '-DVERIF_TARGET_NAME="c03_nav_g%d"' % g], "subtargets": ["nav"], "group": g, "match": ("cfg", 4, g)} for g in range(4)],
     },
     "C04": {
         "level": "exploration",
@@ -98,7 +98,7 @@ PROPERTIES = {
             "functors given to for_each/generate/transform are the harness's own; order is observed through the values they write",
         ],
         "targets": [{"name": "c04_algo_g%d" % g, "src": "c04_algorithms.cpp", "mode": "asan", "rapidcheck": True,
-                     "flags": ["-DC04_GROUP=%d" % g, '-DVERIF_TARGET_NAME="c04_algo_g%d"' % g], "subtargets": ["algo"], "group": g} for g in range(8)],
+                     "flags": ["-DC04_GROUP=%d" % g, '-DVERIF_TARGET_NAME="c04_algo_g%d"' % g], "subtargets": ["algo"], "group": g, "match": ("pair", 8, g)} for g in range(8)],
     },
     "C10": {
         "level": "fault_enumeration",
@@ -108,7 +108,7 @@ PROPERTIES = {
             "contents after recreate without a fill value are unspecified for trivial pixel types and are not compared",
         ],
         "targets": [{"name": "c10_hist_k%d" % k, "src": "c10_image_container.cpp", "mode": "asan", "rapidcheck": True,
-                     "flags": ["-DC10_KIND=%d" % k, '-DVERIF_TARGET_NAME="c10_hist_k%d"' % k], "subtargets": ["hist"], "kind": k} for k in range(7)],
+                     "flags": ["-DC10_KIND=%d" % k, '-DVERIF_TARGET_NAME="c10_hist_k%d"' % k], "subtargets": ["hist"], "kind": k, "match": ("kind", None, k)} for k in range(7)],
     },
     "C05": {
         "level": "exploration",
@@ -139,7 +139,22 @@ PROPERTIES = {
             "a FILE* handed to GIL is adopted (closed) by the device, as file_stream_device documents by construction",
         ],
         "targets": [{"name": "c12_rt_g%d" % g, "src": "c12_io_roundtrip.cpp", "mode": "asan", "rapidcheck": True, "io": True,
-                     "flags": ["-DC12_GROUP=%d" % g, "-DC12_NGROUPS=4", '-DVERIF_TARGET_NAME="c12_rt_g%d"' % g], "subtargets": ["rt"], "group": g} for g in range(4)],
+                     "flags": ["-DC12_GROUP=%d" % g, "-DC12_NGROUPS=4", '-DVERIF_TARGET_NAME="c12_rt_g%d"' % g], "subtargets": ["rt"], "group": g, "match": ("entry", 4, g)} for g in range(4)],
+    },
+    "C11": {
+        "level": "exploration",
+        "assumptions": [
+            "a sub-rectangle is chosen inside the dimensions a separate read_image_info reports for the same bytes; rectangles reaching outside the image are a caller error the statement does not cover",
+            "memory that libpng/libtiff/libjpeg or a reader still owns when an exception leaves through their longjmp error path is a leak, not one of the outcomes the statement forbids: LeakSanitizer is off for C11",
+            "operator new is capped at 64 MiB in the harness, so a header declaring a huge image ends in std::bad_alloc/length_error (a C++ exception) instead of exhausting the sandbox",
+            "'uninitialised bytes from a short read' is decided through the truncation oracle (a strict prefix that lacks at least one whole sample must throw for the decoders GIL implements itself); MSan is not usable here (no instrumented libstdc++/codec libraries)",
+            "time: every case runs under a watchdog (120 s) and the scanline loop is driven within a 64 MB row budget; a case above the limit is a violation, machine load below it is not measured",
+        ],
+        "targets": [{"name": "c11_mut_f%d" % f, "src": "c11_io_robustness.cpp", "mode": "asan", "io": True, "asan_options": "detect_leaks=0",
+                     "flags": ["-DC11_FMT=%d" % f, '-DVERIF_TARGET_NAME="c11_mut_f%d"' % f], "subtargets": ["mut"], "fmt": f, "match": ("fmt", None, f), "threads": 1} for f in range(6)] +
+                   [{"name": "c11_fuzz_f%d" % f, "src": "c11_io_robustness.cpp", "mode": "fuzz", "io": True, "asan_options": "detect_leaks=0", "runner": "c11_fuzz_runner",
+                     "flags": ["-DC11_LIBFUZZER", "-DC11_FMT=%d" % f, '-DVERIF_TARGET_NAME="c11_fuzz_f%d"' % f], "fmt": f,
+                     "budget": {"quick": 75, "thorough": 1500}} for f in range(6)],
     },
     "C13": {
         "level": "exploration",
